@@ -10,6 +10,7 @@ import (
 	"fmt"
 	"io"
 	"os"
+	"reflect"
 	"runtime/debug"
 )
 
@@ -87,14 +88,68 @@ func (s Step) BoolOr(k string, d bool) bool {
 	return s.Bool(k)
 }
 
-// Hex decodes a hex string field.
+// Hex decodes a hex string field. The bytes are handed out as the caller of a library usually holds them: a slice of a
+// larger buffer (spare capacity behind it, filled with 0xEE). Every trace is replayed twice, and the second pass receives
+// THE SAME buffers as the first: a caller decodes, verifies or decrypts its bytes as often as it likes, so a callee that
+// decrypted in place, appended to an argument or clobbered it in the first pass makes the second pass deviate from the
+// specification. Adapters that change such a buffer themselves must take a private copy (HexMut).
 func (s Step) Hex(k string) []byte {
+	if !trackInputs {
+		return s.HexMut(k)
+	}
+	// the n-th request for field k of this step object gets the same buffer in both passes
+	id := handedKey{step: reflect.ValueOf(s).Pointer(), field: k}
+	id.nth = handedSeen[id]
+	handedSeen[handedKey{step: id.step, field: k}]++
+	if h, ok := handed[id]; ok {
+		return h.buf[:h.n]
+	}
+	b := s.HexMut(k)
+	const room = 64
+	buf := make([]byte, len(b)+room)
+	copy(buf, b)
+	for j := len(b); j < len(buf); j++ {
+		buf[j] = 0xEE
+	}
+	handed[id] = handedBuf{n: len(b), buf: buf}
+	return buf[:len(b)]
+}
+
+// Roomy returns a copy of b as a receiver of a message usually holds it: a slice of a larger receive buffer (room bytes of
+// spare capacity behind it, filled with 0xEE). A callee that appends to a sub-slice of its argument writes over the rest
+// of the argument - or behind it - only when that capacity exists.
+func Roomy(b []byte, room int) []byte {
+	buf := make([]byte, len(b)+room)
+	copy(buf, b)
+	for j := len(b); j < len(buf); j++ {
+		buf[j] = 0xEE
+	}
+	return buf[:len(b)]
+}
+
+// HexMut decodes a hex string field into a private buffer the adapter may modify.
+func (s Step) HexMut(k string) []byte {
 	b, err := hex.DecodeString(s.Str(k))
 	if err != nil {
 		panic(fmt.Sprintf("harness: field %q of step is not hex: %v", k, err))
 	}
 	return b
 }
+
+type handedKey struct {
+	step  uintptr
+	field string
+	nth   int
+}
+
+type handedBuf struct {
+	n   int
+	buf []byte
+}
+
+var handed = map[handedKey]handedBuf{}
+var handedSeen = map[handedKey]int{}
+var trackInputs = os.Getenv("VERIF_NO_INPUT_TRACKING") == ""
 
 func (s Step) HexOr(k string) []byte {
 	if !s.Has(k) {
@@ -155,6 +210,9 @@ var adapters = map[string]Adapter{}
 
 func Register(fam string, a Adapter) { adapters[fam] = a }
 
+// families whose adapter already repeats every trace itself (no second pass on the same buffers)
+var noSecondPass = map[string]bool{"randsrc": true}
+
 // RunTrace executes one trace, converting a panic in the code under test into a Mismatch.
 func RunTrace(t *Trace, env *Env) (mm *Mismatch, steps int) {
 	a, ok := adapters[t.Fam]
@@ -172,7 +230,18 @@ func RunTrace(t *Trace, env *Env) (mm *Mismatch, steps int) {
 		}
 	}()
 	CurStep = 0
-	return a(t, env), len(t.Steps)
+	clear(handed)
+	clear(handedSeen)
+	mm = a(t, env)
+	if mm == nil && trackInputs && len(handed) > 0 && !noSecondPass[t.Fam] {
+		// once more, on the very same input buffers
+		CurStep = 0
+		clear(handedSeen)
+		if mm = a(t, env); mm != nil {
+			mm.Note = "second use of the same input buffers (the first use of these bytes conformed): " + mm.Note
+		}
+	}
+	return mm, len(t.Steps)
 }
 
 // CurStep is maintained by adapters (via At) so that a panic is attributed to a step.
@@ -217,6 +286,28 @@ func Main(in io.Reader, out io.Writer, progress *os.File, env *Env, from, limit 
 		}
 	}
 	fmt.Fprintf(w, "{\"done\":true,\"traces\":%d,\"steps\":%d,\"fails\":%d}\n", traces, steps, fails)
+}
+
+// SumRoomy repeats h.Sum with a destination that has spare capacity (a frame buffer with bytes of the caller behind the
+// place of the digest, filled with 0xEE): Sum appends, so the result is prefix||digest and everything behind it is untouched.
+func SumRoomy(i int, h interface{ Sum([]byte) []byte }, prefix, exp []byte) *Mismatch {
+	const room = 96
+	buf := make([]byte, len(prefix)+room)
+	copy(buf, prefix)
+	for j := len(prefix); j < len(buf); j++ {
+		buf[j] = 0xEE
+	}
+	out := h.Sum(buf[:len(prefix)])
+	if mm := Diff(i, out, exp); mm != nil {
+		mm.Note = "Sum into a destination with spare capacity"
+		return mm
+	}
+	for j := len(exp); j < len(buf); j++ {
+		if buf[j] != 0xEE {
+			return &Mismatch{Step: i, Kind: "overrun", Got: "bytes behind the appended digest were written: " + hex.EncodeToString(buf[len(exp):]), Exp: "untouched (0xEE fill)", Note: "Sum only appends"}
+		}
+	}
+	return nil
 }
 
 func jsonStr(v interface{}) string {
